@@ -348,15 +348,31 @@ Proof.
 Qed.
 
 
-Lemma dinv_truncate_head maxsz t n t' :
-  DInv maxsz t -> n < two32 -> t_head t + 1 < 65536 -> truncate_head t n = Ok t' -> DInv maxsz t'.
+(* what truncateHead leaves of the entries and of their bytes *)
+Definition kept_prefix (t t' : table) : Prop :=
+  (rest_of t' = [] /\ t_headbytes t' = 0) \/
+  (exists k, rest_of t' = firstn k (rest_of t) /\
+     (forall e, In e (rest_of t') -> forall f, dget (efile e) (t_data t) = Some f ->
+        exists f', dget (efile e) (t_data t') = Some f' /\ eoff e <= fsize f' /\
+                   firstn (N.to_nat (eoff e)) (fbytes f') = firstn (N.to_nat (eoff e)) (fbytes f)) /\
+     ((rest_of t = [] -> t_headbytes t = 0) -> rest_of t' = [] -> t_headbytes t' = 0)).
+
+Lemma dinv_truncate_head_hd maxsz t n t' :
+  DInv maxsz t -> n < two32 -> t_head t + 1 < 65536 -> truncate_head t n = Ok t' ->
+  DInv maxsz t' /\ t_head t' <= t_head t + 1 /\ kept_prefix t t'.
 Proof.
   intros HD Hn Hhd E.
   assert (HI' : IdxInv maxsz t') by (destruct HD as [HI _]; eapply inv_truncate_head; eauto).
   unfold truncate_head in E. cbv zeta in E.
-  destruct (N.leb_spec (t_items t) n) as [L1|L1]; [inversion E; subst; exact HD|].
+  destruct (N.leb_spec (t_items t) n) as [L1|L1].
+  { inversion E; subst. split; [exact HD|]. split; [lia|]. right. exists (length (rest_of t')). split; [symmetry; apply firstn_all|].
+    split; [|auto]. intros e He f Hf. exists f. destruct HD as (_ & DG & _). destruct (DG e He) as (g & Hg & Hle).
+    assert (g = f) by congruence. subst g. repeat split; assumption. }
   destruct (N.ltb_spec n (t_hidden t)) as [L2|L2].
-  { destruct (t_items t =? t_hidden t); [|discriminate]. eapply dinv_reset_to; eauto. }
+  { destruct (t_items t =? t_hidden t); [|discriminate]. split; [eapply dinv_reset_to; eauto|].
+    pose proof (reset_to_core _ _ _ E) as C. cbv zeta in C. unfold core in C. injection C as P1 P2 P3 P4 P5 P6 P7 P8 P9.
+    split; [rewrite P4; rewrite N.mod_small by (unfold two32; lia); lia|].
+    left. split; [unfold rest_of; rewrite P7; reflexivity|exact P6]. }
   destruct HD as (HI & DG & DH & DI & DJ & DL & DN & DO & DP).
   destruct (inv_counters _ _ HI) as [_ Hhi0].
   assert (L0 : t_offset t <= n).
@@ -446,6 +462,22 @@ Proof.
     eapply in_firstn_le; [|exact He].
     assert (mflush (t_mcur t') <= mflush (t_mcur t)) by (subst t' t4; cbn [w_counters w_data t_mcur]; rewrite F3m; exact D2e).
     unfold nsynced. lia. }
+  split; [|split; [rewrite Hhd'; lia|]].
+  2:{ right. exists (N.to_nat len). split; [exact Hr|]. split.
+      - intros e He f Hf. destruct (Mr' e He) as [_ Me]. rewrite Hhd' in Me. rewrite Hd.
+        pose proof He as He0. rewrite Hr in He0. apply in_firstn in He0. destruct (DG e He0) as (g & Hg & Hle). assert (g = f) by congruence. subst g.
+        destruct (N.eqb_spec (efile e) exf) as [Q|Q].
+        + exists nf. split; [reflexivity|]. assert (Hee : eoff e <= eoff ex) by (rewrite <- Hhb'; apply (inv_off_le_hb maxsz t' HI' e He); rewrite Hhd'; exact Q).
+          split; [rewrite Hnf1; exact Hee|]. rewrite Q, Hfx in Hf. injection Hf as <-.
+          subst nf. unfold f_sync, f_trunc. cbn [fbytes]. unfold fsize, flen in Hle. rewrite firstn_app.
+          rewrite firstn_firstn. replace (Nat.min (N.to_nat (eoff e)) (N.to_nat (eoff ex))) with (N.to_nat (eoff e)) by lia.
+          replace (N.to_nat (eoff e) - length (firstn (N.to_nat (eoff ex)) (fbytes fx)))%nat with 0%nat by (rewrite firstn_length; lia).
+          cbn [firstn]. apply app_nil_r.
+        + exists f. rewrite F3b by exact Me. repeat split; assumption.
+      - intros _ Z. rewrite Hhb'. rewrite Hr in Z.
+        destruct (N.eqb_spec len 0) as [Z0|Z0]; [inversion EX; reflexivity|].
+        exfalso. pose proof HI as HI0. unfold IdxInv, core, IdxInvC in HI0. inv_destruct HI0.
+        rewrite (rest_of_inv t rest Hb Hwf Ht Ho) in Z. apply (f_equal (@length entry)) in Z. rewrite firstn_length in Z. cbn [length] in Z. lia. }
   refine (conj HI' (conj _ (conj _ (conj _ (conj _ (conj _ (conj _ (conj _ _)))))))).
   - intros e He. destruct (Mr' e He) as [_ Me]. rewrite Hhd' in Me.
     pose proof He as He0. rewrite Hr in He0. apply in_firstn in He0. destruct (DG e He0) as [f [Hf Hle]].
@@ -470,6 +502,10 @@ Proof.
     unfold has. rewrite Hd. destruct (N.eqb_spec id exf); [eauto|]. rewrite F3b by exact Hle. eauto.
   - intros id Hid. apply Hop' in Hid. rewrite Hhd'. exact (proj2 Hid).
 Qed.
+
+Lemma dinv_truncate_head maxsz t n t' :
+  DInv maxsz t -> n < two32 -> t_head t + 1 < 65536 -> truncate_head t n = Ok t' -> DInv maxsz t'.
+Proof. intros HD Hn Hh E. exact (proj1 (dinv_truncate_head_hd maxsz t n t' HD Hn Hh E)). Qed.
 
 (* ---------- append batches ---------- *)
 Lemma file_eta f : mkFile (fbytes f) (fdur f) = f.
